@@ -222,8 +222,12 @@ func c10Positions() (routed, unrouted []string) {
 	return
 }
 
+// c10Stop: a case did not reach quiescence; the package-wide provider must not be swapped any more.
+var c10Stop bool
+
 func c10(ctx *core.Ctx) {
 	quietLogs()
+	c10Stop = false
 	ctx.Rule("crash points enumerated completely: panic in each of 2 container / 2 service / 2 route filters before and after passing control, in the handler before / between / after its writes, in an If-condition, and (routing-failure request) in container filters and the custom error handler; x recovery {on, off} x coding {none, gzip, deflate} (container switch or route override) x provider {sync.Pool, bounded(1), custom} x entry {Dispatch, ServeHTTP} x filters writing output or not x custom/default recover handler x panic value kind {pointer, string, error, runtime error, http.ErrAbortHandler} (value kinds on the sync.Pool / no-marker slice). Monitors: recover() around the entry, recording RecoverHandler, compressor ledger, probe requests replayed after every panic, Add+Remove afterwards (needs the write lock). Then sequences of 20 mixed panicking/normal requests per container. Non-trivial = every crash case; distinct by the full cell.")
 	ctx.Assume("HandleWithFilter is excluded: the property speaks of routed dispatch",
 		"panic values are pointers so that 'the same value' is decided by identity")
@@ -273,6 +277,9 @@ func c10(ctx *core.Ctx) {
 			ctx.Case(ci, core.JSON(k))
 		}
 		c10One(ctx, ci, k, []string{k.Pos})
+		if c10Stop {
+			return
+		}
 	}
 	// sequences of mixed panicking and normal requests on one container
 	seqs := ctx.N(150, 3000)
@@ -294,6 +301,9 @@ func c10(ctx *core.Ctx) {
 		}
 		ctx.Case(ci, core.JSON(k)+" seq="+core.JSON(seq))
 		c10One(ctx, ci, &k, seq)
+		if c10Stop {
+			return
+		}
 	}
 }
 
@@ -422,12 +432,13 @@ func c10One(ctx *core.Ctx, ci int, k *c10Case, seq []string) {
 			env.c.Add(tmp)
 			env.c.Remove(tmp)
 		}()
-		if blocked, timedOut := mon.WaitQuiescent(done, 4*time.Second); timedOut {
+		if blocked, timedOut := mon.WaitQuiescent(done, 30*time.Second); timedOut {
 			if len(blocked) > 0 {
 				ctx.Violation(ci, "c10:lock-left-held:"+pcell, fmt.Sprintf("Add/Remove after the panic is parked forever: %v", blocked), d)
 			} else {
 				ctx.Inconclusive("Add/Remove after a panic did not finish within the watchdog and no blocked go-restful frame was found: " + cell)
 			}
+			c10Stop = true
 			return
 		}
 	}
